@@ -5,6 +5,8 @@ import (
 	"flag"
 	"fmt"
 	"os"
+	"strconv"
+	"strings"
 
 	"verifh/core"
 	_ "verifh/props"
@@ -64,8 +66,15 @@ func main() {
 		out := fs.String("out", "", "")
 		trace := fs.String("trace", "", "")
 		deadline := fs.Int64("deadline", 0, "")
+		skipS := fs.String("skip", "", "")
 		fs.Parse(os.Args[3:])
-		os.Exit(core.WorkerMain(p, *tier, *seed, *shard, *n, *out, *trace, *deadline))
+		skip := map[int64]bool{}
+		for _, x := range strings.Split(*skipS, ",") {
+			if v, err := strconv.ParseInt(x, 10, 64); err == nil {
+				skip[v] = true
+			}
+		}
+		os.Exit(core.WorkerMain(p, *tier, *seed, *shard, *n, *out, *trace, *deadline, skip))
 	default:
 		usage()
 	}
